@@ -466,6 +466,11 @@ class Engine:
 
 def _on_construct(ip, st, obj, node):
     a = obj.attrs
+    if not ip.is_subclass(obj.cls, "Artifact"):
+        # a helper object that merely carries numbers (validated before a resolution is built from
+        # them): the calendar obligation is about resolutions
+        obj.cal = "NA"
+        return
     if "month" in a and "day" in a:
         m, d = a.get("month"), a.get("day")
         y = a.get("year")
@@ -474,18 +479,52 @@ def _on_construct(ip, st, obj, node):
                 status = ip.calendar_status(st, y, m, d)
             else:
                 status = _doy_status(ip, st, m, d)
+            if status == "UNCHECKED" and isinstance(y, IntV) and _same_datetime_day(st, y, m, d):
+                status = "REAL"
             if status == "UNCHECKED":
                 # no provenance argument: decide by evaluating the path condition over
                 # every (year, month, day) the fields can take on this path
-                if _semantic_calendar(ip, st, y if isinstance(y, IntV) else None, m, d):
+                sem = _semantic_calendar(ip, st, y if isinstance(y, IntV) else None, m, d)
+                if sem is True:
                     status = "CHECKED"
+                elif sem is None:
+                    # a condition of this path that speaks about these fields is outside the
+                    # evaluable fragment (or the domain is too large): neither valid nor invalid
+                    status = "UNKNOWN"
+                    ip.note_cal_unknown(node, "calendar validity of the assembled date was not decided (a path "
+                                        "condition outside the evaluable fragment, or too many combinations)")
             obj.cal = {"CONST-OK": "REAL", "CONST-BAD": "UNCHECKED"}.get(status, status)
         else:
             obj.cal = "NA"
 
 
+def _same_datetime_day(st, y, m, d):
+    """year and month are fields of one datetime value D and, on this path, the day is known to
+    equal D's day: the triple is D's own date"""
+    ys, ms = y.sym, m.sym
+    if not (isinstance(ys, tuple) and isinstance(ms, tuple) and len(ys) == 3 and len(ms) == 3
+            and ys[0] == ms[0] == "dtfield" and ys[1] == ms[1] and ys[2] == "year" and ms[2] == "month"):
+        return False
+    want = ("dtfield", ys[1], "day")
+    for c, t in st.conds:
+        if t is True and isinstance(c, tuple) and len(c) == 4 and c[0] == "cmp" and c[1] == "Eq" \
+                and {c[2], c[3]} == {want, d.sym}:
+            return True
+        if t is False and isinstance(c, tuple) and len(c) == 4 and c[0] == "cmp" and c[1] == "NotEq" \
+                and {c[2], c[3]} == {want, d.sym}:
+            return True
+    return False
+
+
 YEAR_SAMPLES = (1, 4, 19, 20, 96, 99, 100, 1800, 1900, 1996, 1999, 2000, 2019, 2020, 2023, 2024, 2029,
                 2100, 2196, 2199, 2200, 2400)
+
+
+_TS_DOMAIN = None
+
+
+class _Sampled(list):
+    """a domain that is a sample of the values, not all of them"""
 
 
 def _leaf_domain(ip, st, leaf):
@@ -509,7 +548,25 @@ def _leaf_domain(ip, st, leaf):
         if lo is None:
             return None
     elif leaf == ("ts",):
-        return None
+        # reference times: a sample (month ends, leap days, year ends and a stride through two
+        # years); enough to exhibit a witness, not to prove validity for every reference time
+        # reference times: every day of a leap year, of its neighbours, of the years around the
+        # non-leap century 2100 and of the first year of the range, at three times of day.  Whether
+        # a date assembled from the reference time and a bounded offset exists depends on the
+        # reference time only through its month, its day and the leap status of the years it can
+        # reach; those combinations are all in this domain (assumption A6, DESIGN 9)
+        global _TS_DOMAIN
+        if _TS_DOMAIN is None:
+            import datetime as _dtm
+            out = []
+            for yr in (1970, 2019, 2020, 2021, 2023, 2024, 2099, 2100):
+                d0 = _dtm.date(yr, 1, 1)
+                while d0.year == yr:
+                    for hh, mi, ss in ((0, 0, 0), (9, 15, 30), (23, 59, 59)):
+                        out.append(_dtm.datetime(d0.year, d0.month, d0.day, hh, mi, ss))
+                    d0 += _dtm.timedelta(days=1)
+            _TS_DOMAIN = out
+        return list(_TS_DOMAIN)
     else:
         return None
     if hi - lo <= 64:
@@ -518,6 +575,9 @@ def _leaf_domain(ip, st, leaf):
 
 
 def _semantic_calendar(ip, st, y, m, d):
+    """True: every (year, month, day) the fields can take on this path is a real date; False: some
+    valuation that satisfies every condition of the path is not a date; None: not decided (a
+    condition about these values cannot be evaluated, or the domain is too large)."""
     import datetime as _dtm
     import itertools
     from . import e4_order as e4
@@ -528,41 +588,107 @@ def _semantic_calendar(ip, st, y, m, d):
     for t in terms:
         if t is not None:
             leaves_of(t, leaves)
-    # conditions that speak about other values only widen the set of valuations when
-    # they are dropped, which is sound for a "every valuation is a real date" argument
-    conds = []
+    base_leaves = set(leaves)
+    # conditions that speak about these values (directly, or through another value they are
+    # compared with); conditions about unrelated values only widen the set of valuations when
+    # dropped, which is sound for "every valuation is a real date"
+    pending = []
     for c, t in st.conds:
         lc = set()
         leaves_of(c, lc)
-        if lc and lc <= leaves:
-            conds.append((c, t))
-    order = sorted(leaves, key=repr)
+        pending.append((c, t, lc))
+    conds = []
+    unknown = False
+    for _round in range(3):
+        rest = []
+        for c, t, lc in pending:
+            if lc and (lc & leaves):
+                if len(leaves | lc) <= 8:
+                    leaves |= lc
+                    conds.append((c, t))
+                else:
+                    unknown = True
+            else:
+                rest.append((c, t, lc))
+        pending = rest
+    # dates that are known to be real (parameters produced by other rules, checked values): their
+    # own day is within their month
+    for o in st.heap.values():
+        if o.cal in ("REAL", "CHECKED") and isinstance(o.sym, tuple):
+            ys_, ms_, ds_ = ("attr", o.sym, "year"), ("attr", o.sym, "month"), ("attr", o.sym, "day")
+            if ms_ in leaves and ds_ in leaves:
+                if ys_ in leaves:
+                    conds.append((("validdate", ys_, ms_, ds_), True))
+                else:
+                    conds.append((("validdate", ("const", 2000), ms_, ds_), True))
+    order = sorted(base_leaves, key=repr) + sorted(leaves - base_leaves, key=repr)
+    nb = len(base_leaves)
+    index = {l: i for i, l in enumerate(order)}
+    base_conds, extra_conds = [], []
+    for c, t in conds:
+        try:
+            e4._code(c, index)
+        except Undecided:
+            unknown = True
+            continue
+        lc = set()
+        leaves_of(c, lc)
+        (base_conds if lc <= base_leaves else extra_conds).append((c, t))
     doms = []
     size = 1
     for l in order:
         dm = _leaf_domain(ip, st, l)
         if dm is None:
-            return False
+            if l in base_leaves:
+                return None
+            unknown = True
+            dm = [None]
         doms.append(dm)
+    for dm in doms[:nb]:
         size *= max(len(dm), 1)
         if size > 400000:
-            return False
+            return None
+    xsize = 1
+    for dm in doms[nb:]:
+        xsize *= max(len(dm), 1)
     try:
-        f = e4.compile_path(conds, terms, order)
+        f = e4.compile_path(base_conds, terms, order)
+        g = e4.compile_path(base_conds + extra_conds, terms, order) if extra_conds else None
     except Undecided:
-        return False
+        return None
+    pad = [dm[0] for dm in doms[nb:]]
     n = 0
-    for combo in itertools.product(*doms):
-        r = f(list(combo))
+    checked_extra = 0
+    for combo in itertools.product(*doms[:nb]):
+        r = f(list(combo) + pad)
         if r is None:
             continue
         n += 1
         yy, mm, dd = r
         try:
             _dtm.date(int(yy) if yy is not None else 2000, int(mm), int(dd))
+            continue
         except (ValueError, TypeError, OverflowError):
-            return False
-    return n > 0
+            pass
+        # a valuation of the date fields that is not a date and passes every condition on them
+        # alone: is it also consistent with the conditions that relate them to other values?
+        if g is None:
+            return None if unknown else False
+        if xsize > 200000 or checked_extra > 200:
+            return None
+        checked_extra += 1
+        sat = False
+        for extra in itertools.product(*doms[nb:]):
+            if g(list(combo) + list(extra)) is not None:
+                sat = True
+                break
+        if sat:
+            return None if unknown else False
+    if n == 0:
+        return None
+    if any(isinstance(dm, _Sampled) for dm in doms):
+        return None      # no witness among the sampled reference times: not a proof
+    return True
 
 
 def _doy_status(ip, st, m, d):
